@@ -1,0 +1,19 @@
+//go:build verif
+
+package readline
+
+import (
+	"io"
+
+	"github.com/reeflective/readline/internal/core"
+)
+
+// VerifSetStdin swaps the reader the key loop blocks on (core.Stdin is already
+// a replaceable package variable, used that way by the Windows port). It only
+// exists in builds with the `verif` tag and returns the previous reader.
+func VerifSetStdin(r io.ReadCloser) io.ReadCloser {
+	old := core.Stdin
+	core.Stdin = r
+
+	return old
+}
